@@ -339,7 +339,7 @@ var pureExternals = map[string]bool{
 	"net/url.Parse": true, "(*net/url.URL).String": true, "(*net/url.URL).ResolveReference": true, "(*net/url.URL).Hostname": true, "(*net/url.URL).Port": true, "(*net/url.URL).RequestURI": true,
 	"(net/url.Values).Encode": true, "net.JoinHostPort": true,
 	"(*regexp.Regexp).FindStringSubmatch": true, "(*regexp.Regexp).FindAllStringSubmatch": true, "(*regexp.Regexp).ReplaceAllString": true, "regexp.MustCompile": true,
-	"os.Getenv": true, "(github.com/BurntSushi/toml.MetaData).Undecoded": true, "(*github.com/BurntSushi/toml.MetaData).Undecoded": true, "(*os.File).WriteString": true,
+	"os.Getenv": true, "os.Open": true, "(github.com/BurntSushi/toml.MetaData).Undecoded": true, "(*github.com/BurntSushi/toml.MetaData).Undecoded": true, "(*os.File).WriteString": true,
 }
 
 func (e *Engine) initLib() {
